@@ -11,13 +11,15 @@ ASSUMPTIONS = ['identity oracle; correctness of enc itself is decided by C02']
 ANCHORS = [('aes.py', 'AES.dec'), ('aes.py', 'AES.InvShiftRows'), ('aes.py', 'AES.InvMixColumns'), ('aes.py', 'Sbox_inv'), ('des.py', 'DES.dec'),
            ('des.py', 'TDEA.dec'), ('des.py', 'IP'), ('des.py', 'IPinv'), ('serpent.py', 'Serpent.dec'), ('serpent.py', '_Sinv'), ('serpent.py', '_Linv'),
            ('serpent.py', '_IP'), ('serpent.py', '_FP'), ('threefish.py', 'Threefish.dec'), ('operators.py', 'rol'), ('operators.py', 'ror')]
-REQUIRED = ['dec(enc(B))==B', 'enc(dec(B))==B', 'block-length', 'aes:Sbox-pair', 'aes:ShiftRows-pair', 'aes:MixColumns-pair', 'des:IP-pair',
+REQUIRED = ['siblings:dec-inverts-enc', 'dec(enc(B))==B', 'enc(dec(B))==B', 'block-length', 'aes:Sbox-pair', 'aes:ShiftRows-pair', 'aes:MixColumns-pair', 'des:IP-pair',
             'serpent:S-pair', 'serpent:IP/FP-pair', 'serpent:L-pair', 'rol/ror-pair', 'salsa/chacha:index-maps']
 NSHARDS = 14
 SAN = {'quick': (2, 60), 'thorough': (2, 60)}
 
 def cases(tier, rng):
     for x in c02.cipher_cases(tier, rng):
+        yield x
+    for x in c02.sibling_cases(tier):
         yield x
     for pos in range(16):
         yield {'k': 'aes-comp', 'pos': pos}
@@ -58,6 +60,17 @@ def run(case, ctx, rng):
         # a second object with the same key inverts the first (no per-object state in the inverse)
         if not is_exc(e):
             ctx.eq('dec(enc(B))==B', call(lambda: c02.build(c, K, T, kbits).dec(e)), B, fresh_object=True, **det)
+    elif k == 'siblings':
+        from vmon.core import siblings
+        ctx.cls(('siblings', case['fam'], case['j'] % 3))
+        specs = []
+        for name, c, K, T, kb in c02.sibling_specs(case, rng):
+            n = c02.blocklen(c); B1 = rng.randbytes(n); B2 = rng.randbytes(n)
+            specs.append((name, (lambda c=c, K=K, T=T, kb=kb: c02.build(c, K, T, kb)),
+                          [('dec(enc(B1))', (lambda o, B=B1: o.dec(o.enc(B))), B1), ('enc(dec(B1))', (lambda o, B=B1: o.enc(o.dec(B))), B1),
+                           ('dec(enc(B2))', (lambda o, B=B2: o.dec(o.enc(B))), B2), ('enc(dec(B2))', (lambda o, B=B2: o.enc(o.dec(B))), B2)]))
+        late = specs.pop() if len(specs) > 3 else None
+        siblings(ctx, rng, 'siblings:dec-inverts-enc', specs, late=late, family=case['fam'])
     else:
         globals()['run_' + k.replace('-', '_')](case, ctx, rng)
 
